@@ -25,9 +25,9 @@ From Ford Require Import Lex.ReaderSpec.
 
 Definition is_doc (x : str) : bool := first_is bang x.
 
-(* layout case: (physical lines, pieces of every logical line in order, region code, impl result).
+(* layout case: (physical lines, pieces of every logical line in order, impl result).
    Spec: the non-documentation lines FORD yields are, in canonical form and without empty ones,
-   exactly the statements of the pieces. *)
+   exactly the statements of the pieces.  (No known region is left for these layouts.) *)
 Definition spec_ok (pss : list (list piece)) (impl : list str + nat) : bool :=
   match impl with
   | inl outs =>
@@ -37,6 +37,6 @@ Definition spec_ok (pss : list (list piece)) (impl : list str + nat) : bool :=
   | inr _ => false
   end.
 
-Definition judge_layout (c : list str * list (list piece) * nat * (list str + nat)) : nat :=
-  let '(lines, pss, region, impl) := c in
-  verdict (negb (res_eqb (read_all default_cfg lines) impl)) (negb (spec_ok pss impl)) region.
+Definition judge_layout (c : list str * list (list piece) * (list str + nat)) : nat :=
+  let '(lines, pss, impl) := c in
+  verdict (negb (res_eqb (read_all default_cfg lines) impl)) (negb (spec_ok pss impl)) 0.
